@@ -16,9 +16,9 @@ CLAIMED.update({
    "Trusted: symgo, z3. The Pull goroutine around include and List's itemSlice are covered under C04/C01 harnesses when present; here the decision kernel.",
    "SSA symbolic execution + SMT with uninterpreted predicate, native replay"),
  "C09": ("DESIGN.md 5/C09",
-   "mergeChanges executed symbolically on arbitrary consecutive valid changes (2 and 3 in a row) of one id against an arbitrary view: fold equivalence, old-value chaining, kind validity, last-seed or-ing.",
-   "Trusted: symgo, z3. Timing clause (writers complete without waiting) is outside the claim.",
-   "SSA symbolic execution + SMT, native replay"),
+   "mergeChanges on arbitrary consecutive valid changes (2 and 3 in a row) of one id against an arbitrary view; the mergeCollectionExcess and DropExcess goroutines executed in the symbolic concurrency runtime between a producer (K=3, thorough 4, valid events over two ids, then a sentinel) and a consumer receiving at every possible pace: fold equivalence, old-value chaining, in-order subsequence ending in the most recent message; a never-receiving subscriber never blocks writers; a stalled backpressured subscriber makes Value.Set fail when its (modelled) 5 s timeout fires instead of hanging.",
+   "Trusted: symgo concurrency runtime (timers fire only when nothing else can run), z3. Wall-clock latency is outside the claim: 'without waiting' is checked as 'never blocked'.",
+   "SSA symbolic execution with symbolic scheduler + SMT, native replay"),
  "C16": ("DESIGN.md 5/C16",
    "cmp combinators with arbitrary (symbolic) comparer answers; FloatValueApprox in IEEE float64 (reflexive, symmetric), DurationValueWithin/TimeValueWithin on full 64-bit nanosecond values against a no-overflow reference; own-kind-only clause over the protobuf reflection model.",
    "Trusted: symgo + protobuf model over generated structs (validated by native replay), IEEE identities |x-y|=|y-x| and commutativity of math.Min/Max used for canonicalisation, durationpb/timestamppb ghost nanoseconds; instants within +-2^62 ns. Unknown fields outside the claim.",
@@ -66,6 +66,13 @@ CLAIMED.update({
  "C02": ("DESIGN.md 5/C02",
    "2 (thorough 3) concurrent writers on one Value/Collection executed in the symbolic concurrency runtime under every interleaving of their lock/unlock/channel operations with symbolic data: delta interceptors lose no increment, compare-and-set admits at most one winner, two Adds of one id never both succeed, Delete-with-expectation vs Update only in legal orders; losers report one of the race statuses.",
    "Trusted: symgo concurrency runtime (RWMutex without writer preference, sleep-set reduction, DRF between sync ops), protobuf model, z3. Counterexamples are confirmed natively by stress replay (up to 400 runs) because the native scheduler cannot be forced without hooks.",
+   "SSA symbolic execution with symbolic scheduler + SMT, native stress replay"),
+})
+
+CLAIMED.update({
+ "C10": ("DESIGN.md 5/C10",
+   "Bus.Send/Listen/collect, listener.send/stop, DropExcess, mergeCollectionExcess and the Value/Collection/PullID forwarders executed as goroutines with a cancel issued by a separate goroutine (i.e. at every scheduling point), writers active, consumers that stop receiving and then cancel: no panic (send on / close of closed channel), no deadlock, channel observed closed, every goroutine ends, live listeners get every event exactly once in order, PullID ends when its item is removed.",
+   "Trusted: symgo concurrency runtime with sleep sets, z3. Bound: <=2 (thorough 3) listeners, <=2 sends, 1 cancel; Value: 1-2 writes, consumer stopping after 0-2 events.",
    "SSA symbolic execution with symbolic scheduler + SMT, native stress replay"),
 })
 
